@@ -40,13 +40,13 @@ type Config struct {
 }
 
 type Bed struct {
-	Cfg      Config
-	Store    *refstore.Store
-	Storage  op.Storage
-	Provider *op.Provider
-	Handler  http.Handler
+	Cfg       Config
+	Store     *refstore.Store
+	Storage   op.Storage
+	Provider  *op.Provider
+	Handler   http.Handler
 	CryptoKey [32]byte
-	SignKey  *hx.Key
+	SignKey   *hx.Key
 }
 
 var discard = slog.New(slog.NewTextHandler(io.Discard, nil))
